@@ -12,6 +12,7 @@ import (
 	"sync"
 	"testing"
 	"testing/synctest"
+	"time"
 
 	"github.com/modelcontextprotocol/go-sdk/mcp"
 	"github.com/modelcontextprotocol/go-sdk/verif/memio"
@@ -135,16 +136,28 @@ func runRawInBubble(s RScript) (res vt.Result) {
 	}
 	var desc strings.Builder
 	cancels, big := 0, false
-	check := func(step int) {
+	checkOnce := func(step int, final bool) (retry bool) { // final: see promptGrace
 		mu.Lock()
 		defer mu.Unlock()
 		for _, c := range calls {
+			if c.cancelled && c.started && !c.finished && !final {
+				retry = true
+				continue
+			}
 			if c.cancelled && c.started && !c.finished {
 				res.Failf("step %d: the call with id %s was cancelled by its caller, but its handler is still parked with a live context", step, c.tok)
 			}
 			if !c.cancelled && c.ctxDone {
 				res.Failf("step %d: the handler of the call with id %s saw its context cancelled although that id was never cancelled (the cancellation of another id hit it)", step, c.tok)
 			}
+		}
+		return retry
+	}
+	check := func(step int) {
+		if checkOnce(step, false) && len(res.Violations) == 0 {
+			time.Sleep(promptGrace)
+			synctest.Wait()
+			checkOnce(step, true)
 		}
 	}
 	for i, st := range s.Steps {
